@@ -603,7 +603,7 @@ func (x *nsxx) run(spaces []*nsxSpace) {
 			if !x.ctx.Mine(base + i) {
 				continue
 			}
-			if i%128 == 0 && x.ctx.Expired() {
+			if done%128 == 0 && x.ctx.Expired() {
 				x.res.Incomplete = append(x.res.Incomplete, fmt.Sprintf("deadline in nsx space %s at %d/%d", sp.name, i, sp.n))
 				return
 			}
